@@ -82,13 +82,13 @@ func (zzLog6) Errorf(string, ...any) {}
 func zzWindow6(i int) int {
 	switch i {
 	case 0:
-		return 64
+		return 128
 	case 1:
 		return 48
 	case 2:
 		return 1
 	case 3:
-		return 128
+		return 64
 	}
 	return 200
 }
@@ -143,7 +143,7 @@ func zzDrain6(c *Conn) int {
 	return n
 }
 
-// DTLS 1.2 receive path with the CONFIGURED replay window W (64, 48, 1; thorough adds 128, 200): two authentic
+// DTLS 1.2 receive path with the CONFIGURED replay window W (128, 48, 1; thorough adds 64, 200): two authentic
 // application-data records of the same epoch with arbitrary 48-bit sequence numbers s1 then s2 arrive. Proved: the
 // second is delivered exactly when it is not a repetition and (it is newer or fewer than W behind s1); a repetition is
 // never delivered; a record W or more behind is dropped. (The detector really is created with the configured size.)
@@ -185,8 +185,8 @@ func zzConnWindow12() {
 	}
 }
 
-// DTLS 1.2 receive path, replay after the window moved, for every configured window W (64, 48, 1; thorough adds
-// 128, 200): authentic records s1, then a newer s2 fewer than W ahead of it (the window shifts), then s1 AGAIN.
+// DTLS 1.2 receive path, replay after the window moved, for every configured window W (128, 48, 1; thorough adds
+// 64, 200): authentic records s1, then a newer s2 fewer than W ahead of it (the window shifts), then s1 AGAIN.
 // Proved: the repetition is not delivered. This is the three-step history in which the detector of pion/transport
 // forgets accepted numbers when its size is not a whole number of 64-bit words (W=48: every number more than 16
 // behind the newest one) - FAILED on the tree before the effectiveReplayProtectionWindow repair.
